@@ -240,6 +240,8 @@ func (r *rw) expr(e ast.Expr) ast.Expr {
 				switch p.Name + "." + s.Sel.Name {
 				case "context.WithCancelCause", "context.WithCancel", "context.WithTimeout", "context.WithDeadline", "context.WithTimeoutCause", "context.Cause", "time.AfterFunc", "time.After", "time.NewTimer", "time.Sleep":
 					x.Fun = sel("zzmc", s.Sel.Name)
+				case "context.AfterFunc":
+					x.Fun = sel("zzmc", "CtxAfterFunc")
 				}
 			}
 		}
